@@ -166,6 +166,7 @@ def _post_overrides(name, d, stubs):
         'io': models.IoStub,
         'datetime': models.DatetimeStub,
         're': models.ReStub,
+        'csv': models.CsvStub,
     }
     for k, v in lib.items():
         if k in d and inspect.ismodule(d[k]) and d[k].__name__ == k:
